@@ -48,6 +48,7 @@ type Q struct {
 	modelVars []string // symbols whose values we want in counterexamples
 	nilChecked map[string]bool
 	needStrCmp bool
+	assumeGlobals func(h *Heap)
 }
 
 func newQ(p *Prog, fnName string, bv bool) *Q {
@@ -260,6 +261,9 @@ const allocKey = "$alloc"
 func (q *Q) havocAll(h *Heap, guard Term) *Heap {
 	nh := q.newHeap()
 	q.assume(implies(guard, le(q.heapGet(h, allocKey), q.heapGet(nh, allocKey))))
+	if q.assumeGlobals != nil {
+		q.assumeGlobals(nh)
+	}
 	return nh
 }
 
